@@ -192,12 +192,22 @@ type c03gen struct {
 	// parent = the pre-block storage of the sequence being generated (values that later
 	// transactions of the block like to write back)
 	parent map[string][]byte
+	// clean = this block's transactions declare every key with full permissions, use values that
+	// fit the keys and rarely inject failures, so that most of them succeed and later
+	// transactions really build on the committed effects of earlier ones
+	clean bool
 }
 
 func (g *c03gen) value(forBalance bool) []byte {
 	rng := g.r.RNG
+	if g.clean && forBalance {
+		return PutU64(uint64(1_000_000 + rng.Intn(1_000_000)))
+	}
 	if forBalance && rng.Chance(70) {
 		return PutU64(rng.Pick64())
+	}
+	if g.clean {
+		return []byte{} // fits every key (also the 0-chunk one); other writes use parent values
 	}
 	switch rng.Intn(8) {
 	case 0:
@@ -229,7 +239,11 @@ func (g *c03gen) action(keys [][]byte, failChance int) string {
 	for i := 0; i < n; i++ {
 		k := keys[rng.Intn(len(keys))]
 		isBal := bytes.Equal(k, g.sk[0]) || bytes.Equal(k, g.sk[1])
-		switch rng.Intn(10) {
+		kind := rng.Intn(10)
+		if g.clean && kind < 2 && rng.Chance(70) {
+			kind = 2 + rng.Intn(8) // reads of keys deleted earlier fail: keep them rare here
+		}
+		switch kind {
 		case 0, 1:
 			st = append(st, "r:"+verifh.Hex(k))
 		case 2, 3, 4, 5, 6:
@@ -266,6 +280,8 @@ func (g *c03gen) tx() *C03Tx {
 			t.Prices[i] = uint64(rng.Intn(4))
 		case rng.Chance(85):
 			t.Prices[i] = 100
+		case g.clean:
+			t.Prices[i] = 1
 		default:
 			t.Prices[i] = rng.Pick64()
 		}
@@ -296,6 +312,10 @@ func (g *c03gen) tx() *C03Tx {
 	perms := []state.Permissions{0, 1, 3, 5, 7, 7, 7, 7, 7, 7, 5, 5, 2, 4, 6}
 	own := BalanceKeyOf(g.bh, t.Sponsor)
 	for _, k := range g.allKey {
+		if g.clean {
+			t.Scope[string(k)] = state.All
+			continue
+		}
 		if bytes.Equal(k, own) {
 			if rng.Chance(40) {
 				t.Scope[string(k)] = perms[rng.Intn(len(perms))]
@@ -317,12 +337,15 @@ func (g *c03gen) tx() *C03Tx {
 		nAct = 0
 	}
 	keys := append([][]byte{}, g.allKey...)
-	if rng.Chance(20) {
+	if rng.Chance(20) && !g.clean {
 		keys = append(keys, undeclared)
 	}
 	failChance := 25
 	if rng.Chance(30) {
 		failChance = 0
+	}
+	if g.clean {
+		failChance = 4
 	}
 	var acts []string
 	for i := 0; i < nAct; i++ {
@@ -378,7 +401,7 @@ func (g *c03gen) sequence() []string {
 	}
 	feeRelative := rng.Chance(35) // ... except the first sponsor's balance in this mode
 	for _, k := range g.sk {
-		if rng.Chance(80) {
+		if rng.Chance(93) {
 			init[string(k)] = PutU64(uint64(1_000_000 + rng.Intn(1_000_000)))
 			if rng.Chance(10) {
 				init[string(k)] = PutU64(rng.Pick64())
@@ -386,6 +409,7 @@ func (g *c03gen) sequence() []string {
 		}
 	}
 	g.parent = init
+	g.clean = rng.Chance(55)
 	txs := make([]*C03Tx, n)
 	for i := range txs {
 		txs[i] = g.tx()
